@@ -85,10 +85,13 @@ def run(P, rep, tier):
                        'the #define/#undef lines of the source (R17.12: flags of the token after an empty expansion, replacement results are not directives, dispatcher arms, '
                        'read_macro_definition - C09 rules re-issued plus the arms explored on `# define M` / `# undef M`), an #include answered from a memo table suppresses no directive '
                        '(R17.13: C10 R10.3 and the guard recogniser re-issued), and the parser\'s identifier/tag tables are per-scope dictionaries (R17.14: def-use facts over parse.c - '
-                       'which scope a table expression denotes, which locals hold the answer of a chain walk, stores through them - plus C03 R03.5 re-issued).')
+                       'which scope a table expression denotes, which locals hold the answer of a chain walk, stores through them - plus C03 R03.5 re-issued). Round 7: the key a writer of a memo table passes is the string its reader looks up '
+                       '(R17.15: def-use origins of every key of a static table not keyed by token spelling; a record field carries the reader\'s key only if every store to it in the program stores that key - File.name does, File.display_name is rewritten by #line), '
+                       'and every string that reaches the key of an insertion into the macro table is an identifier literal or the spelling of a token tested to be TK_IDENT (R17.16).')
     rep.assumptions += ['calloc succeeds', 'probe loops are analysed for 0..3 generic iterations; the facts checked are per-iteration facts',
                         'command-line words other than the -D/-U option word are arbitrary strings; the word after a detached -D/-U exists (the pre-scan of parse_args rejects the line otherwise)',
-                        'fnv_hash is a pure function of the key bytes']
+                        'fnv_hash is a pure function of the key bytes',
+                        'R17.15: the token at a directive belongs to the File of the text being read (Token.file is not followed); a parameter that receives the looked-up key at one call site names "the path a file is opened under" at all of them']
     r171(P, u, rep)
     r172(P, u, rep)
     r173(P, u, rep)
